@@ -108,6 +108,11 @@ def matrix():
     out.append(("ctor/foreign-field-then-read", CFG + "class C1\n    def level: Int\n    def nxt: Int\n    def __init__(self, cfg: Config) =>\n        cfg.level := 3\n        self.nxt := self.level + 1\n        self.level := 2\n", "reject"))
     out.append(("ctor/foreign-field-then-self", CFG + "class C1\n    def level: Int\n    def __init__(self, cfg: Config) =>\n        cfg.level := 3\n        self.level := cfg.level\n", "accept"))
     out.append(("ctor/foreign-other-name", CFG + "class C1\n    def level: Int\n    def __init__(self, cfg: Config) =>\n        cfg.other := 3\n        self.level := 1\n", "accept"))
+    PT = "class P\n    def x: Int := 0\n"
+    out.append(("ctor/nested-write-only", PT + "class C1\n    def origin: P\n    def __init__(self) =>\n        self.origin.x := 1\n", "reject"))
+    out.append(("ctor/nested-write-before-assign", PT + "class C1\n    def origin: P\n    def __init__(self) =>\n        self.origin.x := 1\n        self.origin := P()\n", "reject"))
+    out.append(("ctor/nested-write-after-assign", PT + "class C1\n    def origin: P\n    def __init__(self) =>\n        self.origin := P()\n        self.origin.x := 1\n", "accept"))
+    out.append(("ctor/nested-write-in-branch", PT + "class C1\n    def origin: P\n    def __init__(self, c: Bool) =>\n        if c then\n            self.origin.x := 1\n        self.origin := P()\n", "reject"))
     out.append(("ctor/local-variable-same-name", "class C1\n    def level: Int\n    def __init__(self) =>\n        def level := 3\n        print(level)\n", "reject"))
     out.append(("ctor/nullable-needs-no-assignment", "class C1\n    def level: Int?\n    def __init__(self) =>\n        print(1)\n", "accept"))
     out.append(("ctor/assigned-in-loop-only", "class C1\n    def level: Int\n    def __init__(self) =>\n        for i in 0 .. 2 do\n            self.level := i\n", "reject"))
